@@ -63,7 +63,7 @@ func init() {
 
 // evidence-source states
 var (
-	c16Logs      = []string{"absent", "unreadable", "foreign-only", "raw", "variable", "uri", "local", "variable+uri", "raw+variable+uri", "foreign-raw+variable"}
+	c16Logs      = []string{"absent", "unreadable", "foreign-only", "raw", "variable", "uri", "local", "variable+uri", "raw+variable+uri", "foreign-raw+variable", "foreign-raw+raw+uri", "foreign-variable+variable+uri"}
 	c16Vars      = []string{"present", "absent", "short", "dotdot-name", "absolute-name", "symlink-out", "nul-name", "surrogate-name", "lookalike-symlink", "bom-name"}
 	c16Quotes    = []string{"none", "tpm+entry", "tpm", "report-proto", "raw+certs+entry", "raw+certs", "raw", "certs-only+entry", "hex(raw+certs+entry)", "base64(raw+certs+entry)", "tdx-raw", "tdx-tpm", "garbage", "empty-measurement", "tdx-tpm-long-mrtd", "tdx-tpm-short-mrtd"}
 	c16Providers = []string{"nil", "ok+entry", "ok", "failing", "tdx"}
@@ -263,6 +263,14 @@ func runC16(r *core.Run) {
 	case "foreign-raw+variable":
 		evts = append(evts, sp155(foreign, eventlog.RIMLocationRaw, []byte("foreign raw"), rim), sp155(gce, eventlog.RIMLocationVariable, varLocator(guid, nameBytes), rim))
 		hasVar = true
+	case "foreign-raw+raw+uri":
+		// two events of ONE locator type: another vendor's comes first, the firmware's own second
+		evts = append(evts, sp155(gce, eventlog.RIMLocationURI, []byte(uri), rim), sp155(foreign, eventlog.RIMLocationRaw, []byte("foreign raw"), rim), sp155(gce, eventlog.RIMLocationRaw, rawData, rim))
+		hasRaw, hasURI = true, true
+	case "foreign-variable+variable+uri":
+		// (both name the same variable, so an unfiltered reader gets the same bytes)
+		evts = append(evts, sp155(gce, eventlog.RIMLocationURI, []byte(uri), rim), sp155(foreign, eventlog.RIMLocationVariable, varLocator(guid, nameBytes), rim), sp155(gce, eventlog.RIMLocationVariable, varLocator(guid, nameBytes), rim))
+		hasVar, hasURI = true, true
 	}
 	logPath := filepath.Join(scratch, "binary_bios_measurements")
 	switch logS {
@@ -276,7 +284,7 @@ func runC16(r *core.Run) {
 	if h.filter == 0 {
 		filter = ""
 		// without a filter the foreign events match too
-		if logS == "foreign-only" || logS == "foreign-raw+variable" {
+		if logS == "foreign-only" || logS == "foreign-raw+variable" || logS == "foreign-raw+raw+uri" {
 			hasRaw = true
 			rawData = []byte("foreign raw")
 		}
@@ -539,6 +547,33 @@ func runC16(r *core.Run) {
 	}
 	if err == nil {
 		r.Probe("extracted")
+	}
+	// A caller that keeps one options value: it forces a fetch once (a refresh), then clears the flag
+	// and extracts again. The second call must answer like a call through a fresh options value
+	// with the same fields, which is the call judged above.
+	if !force && !viaCLI && r.Chance(25, "reused-options-after-forced-fetch?") {
+		kept := *opts
+		kept.ForceFetch = true
+		func() {
+			defer func() { _ = recover() }()
+			extract.Endorsement(&kept)
+		}()
+		kept.ForceFetch = false
+		before := len(net.Requests)
+		var out2 []byte
+		var err2 error
+		func() {
+			defer func() {
+				if p := recover(); p != nil {
+					err2 = fmt.Errorf("panic: %v", p)
+				}
+			}()
+			out2, err2 = extract.Endorsement(&kept)
+		}()
+		r.Probe("options-reused-after-forced-fetch")
+		if (err2 == nil) != (err == nil) || (err == nil && !bytes.Equal(out2, out)) {
+			r.Fail("local-evidence-altered", "reused-options-after-forced-fetch", "%s: through an options value that had forced a fetch before, the extraction gives err=%v and %d bytes (%d more requests); through a fresh options value with the same fields err=%v and %d bytes", where, err2, len(out2), len(net.Requests)-before, err, len(out))
+		}
 	}
 	// The same (long-lived) reader resolves a second variable under the same vendor GUID, then the
 	// first again: each read returns that variable's own bytes.
